@@ -409,7 +409,10 @@ def numpy_real(req):
 
 # ---- shrinking, signatures ----------------------------------------------------------------------------------------------
 def sig_of(f):
-    return {"kind": f["kind"], "fmt": f["fmt"], "one_qubit": f["one_qubit"], "fields": f["fields"]}
+    """canonical identification of a failure (matched against known_findings.json): kind of failure, storage format, one-qubit
+    or multi-qubit layout and, for round-trip failures, the attributes that came back different"""
+    return {"kind": f["kind"], "fmt": f["fmt"], "one_qubit": f["one_qubit"],
+            "fields": f["fields"] if f["kind"].startswith("roundtrip") else []}
 
 
 def shrink(session, sig):
